@@ -93,12 +93,22 @@ def add_alt_shape(prog, rep, prefix, ctx, counter):
             break
         force = None
         present = None
+        probes = []  # (positions selector, truth) of sub-filter look-ups written out instead of self.check_alt(hashes)
         for c in p.conds:
             a = strip_epochs(c.atom)
             if a == ("p", "force") and c.func is f:
                 force = c.truth
             elif a[0] == "ret" and a[1].endswith(".check_alt") and a[3] == (SELF, ("p", "hashes")):
                 present = c.truth
+            else:
+                sel = _subfilter_probe(a)
+                if sel is not None:
+                    probes.append((sel, c.truth))
+        if present is None and probes:
+            if any(t for _, t in probes):
+                present = True
+            elif _covers_all([sel for sel, _ in probes]):
+                present = False
         def newest_at(i, recv):
             """recv is the newest sub-filter when event i happens: _blooms[-1], or the object appended last before i"""
             if strip_epochs(recv) == NEWEST:
@@ -147,6 +157,47 @@ def add_alt_shape(prog, rep, prefix, ctx, counter):
         rep.ok(f"{prefix}.insert-condition", f"{where}: rows {sorted(map(str, rows))}")
         rep.ok(f"{prefix}.growth-precedes-insert", where)
     return f, out, good
+
+
+def _subfilter_probe(a):
+    """a = <sub-filter>.check_alt(hashes) for one position, or any(<sub-filter>.check_alt(hashes) for <sub-filter> in <part of the list>):
+    returns which positions of the sub-filter list it looks at - ('all',) / ('idx', k) / ('slice', lo, hi, step) - else None"""
+    h = ("p", "hashes")
+    def part(d):
+        if d == BLOOMS:
+            return ("all",)
+        if d[0] == "slice" and d[1] == BLOOMS and all(x[0] == "c" and (x[1] is None or isinstance(x[1], int)) for x in d[2:5]):
+            return ("slice", d[2][1], d[3][1], d[4][1])
+        return None
+    if a[0] == "ret" and a[1].endswith("BloomFilter.check_alt") and len(a[3]) == 2 and a[3][1] == h:
+        r = a[3][0]
+        if r[0] == "sub" and r[1] == BLOOMS and r[2][0] == "c" and isinstance(r[2][1], int):
+            return ("idx", r[2][1])
+    if a[0] == "call" and a[1] == ("g", "any") and len(a[2]) == 1 and a[2][0][0] == "comp" and len(a[2][0][3]) == 1 and not a[2][0][3][0][3]:
+        g = a[2][0]
+        el = g[2]
+        if el[0] == "ret" and el[1].endswith("BloomFilter.check_alt") and len(el[3]) == 2 and el[3][1] == h and el[3][0] == ("it", g[3][0][1], g[3][0][2]):
+            return part(g[3][0][2])
+    return None
+
+
+def _covers_all(sels) -> bool:
+    """do the selectors together reach every position of a list, whatever its length?  Decided by evaluating the selectors on
+    index lists of length 1 .. 16 (constant bounds only, so the pattern is periodic well below that)"""
+    for n in range(1, 17):
+        idx = list(range(n))
+        got = set()
+        for s_ in sels:
+            if s_[0] == "all":
+                got |= set(idx)
+            elif s_[0] == "idx":
+                if -n <= s_[1] < n:
+                    got.add(idx[s_[1]])
+            elif s_[0] == "slice":
+                got |= set(idx[slice(s_[1], s_[2], s_[3])])
+        if got != set(idx):
+            return False
+    return True
 
 
 def sub_counter_once(prog, rep, rid):
